@@ -61,6 +61,13 @@ Definition limit_at (cf : sconf) (off : N) : N :=
 
 Definition all_digits (s : bytes) : bool := match s with [] => false | _ => forallb is_digit s end.
 
+(* the arguments of [kv], pairwise, as field lines *)
+Fixpoint kv_fields (args : list bytes) : bytes :=
+  match args with
+  | k :: v :: r => field_line k v ++ kv_fields r
+  | _ => []
+  end.
+
 (* one command: inl body (to be followed by OK / list_OK) | inr ACK line *)
 Definition exec_cmd (cf : sconf) (idx : N) (line : bytes) : bytes + bytes :=
   match mpd_tokenize (line ++ [LF]) with
@@ -76,6 +83,10 @@ Definition exec_cmd (cf : sconf) (idx : N) (line : bytes) : bytes + bytes :=
     else if beq name (b "bin") then
       let n := match args with c :: _ => N.to_nat (dec_value c) | [] => O end in
       inl (b "binary: " ++ render_dec (N.of_nat n) ++ [LF] ++ payload n ++ [LF])
+    else if beq name (b "kv") then
+      (* key/value pairs chosen by the client come back as the fields of the reply, verbatim: replies whose KEYS differ from request
+         to request on one connection (the same word in another letter case, a key that is a prefix of the one before) *)
+      inl (kv_fields args)
     else if beq name (b "update") || beq name (b "rescan") then
       inl (field_line (b "updating_db") (match args with u :: _ => u | [] => b "1" end))
     else if beq name (b "stop") then inl []
